@@ -156,7 +156,7 @@ def corpus():
 def rustc(path, rlib, deps, outdir):
     p = subprocess.run(['rustc', '--edition', '2018', '--crate-type', 'lib', '--emit=metadata', '--error-format=json', '--cap-lints', 'allow',
                         '--extern', 'httparse=' + rlib, '-L', 'dependency=' + deps, '-o', os.path.join(outdir, os.path.basename(path) + '.rmeta'), path],
-                       capture_output=True, text=True)
+                       capture_output=True, text=True, errors="replace")
     codes, msgs = [], []
     for l in p.stderr.split('\n'):
         if l.startswith('{'):
@@ -178,7 +178,7 @@ def run():
         src = os.path.join(tmp, 'crate')
         shutil.copytree(REPO, src, ignore=shutil.ignore_patterns('target', '.git', 'fuzz'))
         env = dict(os.environ, CARGO_NET_OFFLINE='true', CARGO_TARGET_DIR=os.path.join(tmp, 'target'))
-        p = subprocess.run(['cargo', 'build', '--offline', '--lib', '--quiet'], cwd=src, env=env, capture_output=True, text=True)
+        p = subprocess.run(['cargo', 'build', '--offline', '--lib', '--quiet'], cwd=src, env=env, capture_output=True, text=True, errors="replace")
         rlib = os.path.join(tmp, 'target', 'debug', 'libhttparse.rlib')
         if p.returncode != 0 or not os.path.exists(rlib):
             res['error'] = 'clients: cannot build the library: ' + p.stderr[-1200:]
